@@ -60,6 +60,8 @@ type VRec struct {
 	Count     int      `json:"count"`
 	RepoHead  string   `json:"repo_head,omitempty"`
 	Engine    string   `json:"engine,omitempty"`
+	// RuntimeRandom: the run declared that it depends on Go map iteration order inside goProbe
+	RuntimeRandom bool `json:"runtime_random,omitempty"`
 }
 
 // Known is one entry of known_findings.json.
@@ -302,6 +304,9 @@ func batch(t *testing.T, p *Prop, res *WorkerResult, known []Known) {
 		res.Evaluations++
 		if det {
 			res.DetHashes[i] = r.Hash()
+			if r.RuntimeRandom {
+				res.DetHashes[i] = 0 // declared dependent on Go map order: not comparable
+			}
 		}
 		for k, n := range r.Faults {
 			res.Faults[k] += n
@@ -344,7 +349,7 @@ func batch(t *testing.T, p *Prop, res *WorkerResult, known []Known) {
 				continue
 			}
 			vr := &VRec{Property: p.ID, Clause: v.Clause, Signature: v.Signature, Detail: v.Detail, Seed: seed, RunIndex: i, RunSeed: rs,
-				Tape: append([]uint64(nil), r.T.Rec...), TapeOrig: len(r.T.Rec), Count: 1}
+				Tape: append([]uint64(nil), r.T.Rec...), TapeOrig: len(r.T.Rec), Count: 1, RuntimeRandom: r.RuntimeRandom}
 			byClass[c] = vr
 			if len(byClass) <= 3 {
 				minimise(t, p, vr, c, known, minBudget)
@@ -365,7 +370,7 @@ func sortedKeys(m map[string]*VRec) []string { return sim.SortedKeys(m) }
 func minimise(t *testing.T, p *Prop, vr *VRec, class string, known []Known, budget time.Duration) {
 	still := func(vals []uint64) bool {
 		n := 1
-		if p.RuntimeRandom {
+		if p.RuntimeRandom || vr.RuntimeRandom {
 			n = 3
 		}
 		for i := 0; i < n; i++ {
@@ -413,7 +418,7 @@ func replay(t *testing.T, p *Prop, res *WorkerResult, known []Known) {
 		}
 	}
 	tries := 1
-	if strings.Contains(rf.Clause, "runtime-random") || p.RuntimeRandom {
+	if strings.Contains(rf.Clause, "runtime-random") || p.RuntimeRandom || rf.RuntimeRandom {
 		tries = 8
 	}
 	wantClass := rf.Property + "/" + rf.Clause + "/" + rf.Signature
